@@ -527,6 +527,87 @@ def two_stage_shadowed(ctx, i):
     ctx.case({"two-stage-shadowed": True}, True)
 
 
+def pause_options_and_same_named_mounts(ctx, i):
+    """Directed. (1) A pausing run called with select=[an output that depends on the interrupt] and on_missing='error' /
+    'warn': the outputs behind the interrupt are legitimately absent at a pause - the call returns PAUSED (identity,
+    value, key, values computed so far), it does not raise and does not warn. (2) Two nested graphs mounted under the
+    SAME node name at different nesting levels, holding interrupts with different output names: each is answered under
+    the dotted key it reports and the history ends like the auto-answered run - also with a reused runner."""
+    import asyncio
+    import warnings
+
+    from hypergraph import AsyncRunner, FunctionNode, Graph, InterruptNode
+
+    rng = ctx.rng
+
+    def mk(q):
+        return ("draft", q)
+
+    def ask(draft):
+        return None
+
+    def fin(decision, draft):
+        return ("fin", decision, draft)
+
+    g = Graph([FunctionNode(mk, name="mk", output_name="draft"), InterruptNode(ask, name="ask", output_name="decision"), FunctionNode(fin, name="fin", output_name="final")], name="po")
+    for pol in ("error", "warn", "ignore"):
+        for sel in (["final"], ["draft", "final"], ("final",)):
+            with warnings.catch_warnings(record=True) as wl:
+                warnings.simplefilter("always")
+                try:
+                    r = asyncio.run(AsyncRunner().run(g, {"q": "run:q"}, select=sel, on_missing=pol))
+                except Exception as e:  # noqa: BLE001
+                    ctx.violation("C14:pause-raised", f"a pausing run with select={sel!r}, on_missing={pol!r} raised {e!r} instead of returning PAUSED", {"program": "pause options", "select": list(sel), "on_missing": pol})
+                    continue
+            ctx.obs["pause_option_runs"] += 1
+            ctx.obs["pauses_checked"] += 1
+            nw = [str(w.message)[:60] for w in wl if issubclass(w.category, UserWarning) and "not found" in str(w.message)]
+            exp_vals = {"draft": ("draft", "run:q")} if "draft" in sel else {}
+            if r.status.value != "paused" or r.pause is None or r.pause.node_name != "ask" or r.pause.response_key != "decision" or r.pause.value != ("draft", "run:q") or r.values != exp_vals or nw:
+                ctx.violation("C14:pause-options", f"select={sel!r}, on_missing={pol!r}: status {r.status.value}, pause {r.pause}, values {r.values}, warnings {nw}; expected PAUSED at ask under 'decision' with values {exp_vals} and no warning", {"program": "pause options", "select": list(sel), "on_missing": pol})
+    # (2) same node name at two levels, different interrupt outputs
+    def build(a1=None, a2=None):
+        def top_check(text):
+            return a1
+
+        def counsel(decision, text):
+            return a2
+
+        def wrap_up(verdict):
+            return ("done", verdict)
+
+        review_top = Graph([InterruptNode(top_check, name="top_check", output_name="decision")], name="review")
+        review_legal = Graph([InterruptNode(counsel, name="counsel_check", output_name="verdict")], name="review")
+        legal = Graph([review_legal.as_node(name="review")], name="legal")
+        return Graph([review_top.as_node(name="review"), legal.as_node(), FunctionNode(wrap_up, name="wrap_up", output_name="result")], name="pipeline")
+
+    a1, a2 = rng.choice(["go", 0, ""]), rng.choice(["fine", 0, ""])
+    case = {"program": "same-named nested graph nodes at two levels", "answers": [repr(a1), repr(a2)]}
+    with warnings.catch_warnings():
+        warnings.simplefilter("ignore")
+        expected = asyncio.run(AsyncRunner().run(build(a1, a2), {"text": "t"}))
+        runner = AsyncRunner()
+        g2 = build()
+        supplied = {"text": "t"}
+        seen = []
+        for step in range(4):
+            r = asyncio.run(runner.run(g2, dict(supplied)))
+            ctx.obs["same_name_mount_runs"] += 1
+            if r.status.value != "paused":
+                break
+            ctx.obs["pauses_checked"] += 1
+            if r.pause.node_name in seen:
+                ctx.violation("C14:nested-resume:paused-again", f"{r.pause.node_name} paused again although its answer was supplied under {r.pause.response_key!r} (asked so far: {seen})", case)
+                return
+            seen.append(r.pause.node_name)
+            supplied[r.pause.response_key] = a1 if r.pause.node_name == "review/top_check" else a2
+        if seen != ["review/top_check", "legal/review/counsel_check"]:
+            ctx.violation("C14:nested-path", f"pauses in order {seen}; expected review/top_check then legal/review/counsel_check", case)
+        elif r.status.value != "completed" or r.values != expected.values:
+            ctx.violation("C14:nested-resume:differs-from-auto", f"after both answers: {r.status.value} {core.short(r.values)}; auto-answered run gives {core.short(expected.values)}", case)
+    ctx.case({"directed": "pause-options-and-same-named-mounts"}, True)
+
+
 def run(ctx):
     n = 800 if ctx.tier == "quick" else 16000
     core.WARM_P = 0.0
@@ -541,6 +622,8 @@ def run(ctx):
             cached_interrupt_history(ctx, i)
         elif i % 40 == 17:
             two_stage_shadowed(ctx, i)
+        elif i % 80 == 37:
+            pause_options_and_same_named_mounts(ctx, i)
         elif r == 4:
             nested_identity(ctx, i)
         elif r == 5:
